@@ -27,7 +27,7 @@ RULE = ('A generated layout (width 3-8; positions of date, amount, description o
 ASSUMPTIONS = ['cells contain no bare carriage return and files carry no BOM (text-mode newline translation / BOM handling are outside the statement)',
                'date cells are exactly strftime output (padded or unpadded); amounts like 1_000 / 1e3 are not generated (statement silent)',
                'location is asserted only when its cell is non-empty']
-REQUIRED_CLASSES = ['good_and_malformed', 'embedded_delim_or_newline', 'dialect_regex', 'dialect_tab', 'dialect_char', 'decimal_comma', 'sign_negate', 'sign_abs',
+REQUIRED_CLASSES = ['regex_header_not_matching', 'good_and_malformed', 'embedded_delim_or_newline', 'dialect_regex', 'dialect_tab', 'dialect_char', 'decimal_comma', 'sign_negate', 'sign_abs',
                     'template_mode', 'short_row_before_capture', 'nonfinite_amount', 'no_header']
 
 DATE_FORMATS = ['%m/%d/%Y', '%Y-%m-%d', '%d/%m/%Y', '%m/%d/%y', '%d.%m.%Y', '%d %b %Y', '%Y%m%d']
@@ -59,7 +59,7 @@ def layout(draw):
     return {'cols': cols, 'template': template,
             'datefmt': draw(st.sampled_from(DATE_FORMATS)),
             'sign': draw(st.sampled_from(['', '', '-', '+', 'override'])),
-            'dialect': draw(st.sampled_from(['comma', 'comma', ';', '|', ':', 'tab', 'regex'])),
+            'dialect': draw(st.sampled_from(['comma', 'comma', ';', '|', ':', 'tab', 'regex'])), 'regex_strict': draw(st.booleans()),
             'header': draw(st.booleans()) or draw(st.booleans()),
             'decimal': draw(st.sampled_from(['.', '.', ','])),
             'spell': draw(st.integers(0, 2 ** 16)),
@@ -90,7 +90,11 @@ def delimiter_setting(lay):
         return 'tab'
     if d == 'regex':
         n = len(lay['cols'])
-        return 'regex:^' + r'\|'.join([r'([^|]*)'] * n) + '$'
+        groups = [r'([^|]*)'] * n
+        if lay.get('regex_strict') and lay['datefmt'][:2] in ('%d', '%m', '%Y', '%y'):
+            # a stricter pattern, as users write them: the date column must start with a digit - the header row does not match it at all
+            groups[lay['cols'].index('date')] = r'(\s*\d[^|]*)'
+        return 'regex:^' + r'\|'.join(groups) + '$'
     return d
 
 
@@ -321,6 +325,8 @@ def check(case, stats: Stats):
     if any(any(ch in r['desc'] for ch in ',;|:\n\t"') for r in case['rows']) and lay['dialect'] != 'regex':
         classes.add('embedded_delim_or_newline')
     classes.add({'comma': 'dialect_comma', 'tab': 'dialect_tab', 'regex': 'dialect_regex'}.get(lay['dialect'], 'dialect_char'))
+    if lay['dialect'] == 'regex' and lay.get('regex_strict') and lay['header']:
+        classes.add('regex_header_not_matching')
     if lay['decimal'] == ',':
         classes.add('decimal_comma')
     if lay['sign'] in ('-', 'override'):
